@@ -84,16 +84,16 @@ def Opnd.asm (st : Style) (kw : Bool) : Opnd → String
     fixes the width of the memory operand -/
 def Dec.asm (st : Style) (d : Dec) : String :=
   -- the count register of a shift does not say how wide the shifted operand is
-  let shift := ["ror", "rcr", "shl", "shr", "sar", "sal", "shld", "shrd"].contains d.mn
+  let shift := [(mn! "ror"), (mn! "rcr"), (mn! "shl"), (mn! "shr"), (mn! "sar"), (mn! "sal"), (mn! "shld"), (mn! "shrd")].contains d.mn
   let sized := if shift && d.ops.getLast? == some (.reg ⟨.gpr8, 1⟩) then d.ops.dropLast else d.ops
   let memBits := (d.ops.filterMap fun o => match o with | .mem m => some m.size | _ => none).headD 0
   -- a register operand of the memory operand's width fixes that width
   -- (movzx: the destination never fixes the width of the source)
-  let hasReg := d.mn != "movzx" && sized.any fun o => match o with | .reg r => regBits r == memBits | _ => false
-  let far := d.mn == "callf" || d.mn == "jmpf"
-  let mn := if d.mn == "callf" then "call" else if d.mn == "jmpf" then "jmp" else d.mn
+  let hasReg := d.mn != (mn! "movzx") && sized.any fun o => match o with | .reg r => regBits r == memBits | _ => false
+  let far := d.mn == (mn! "callf") || d.mn == (mn! "jmpf")
+  let mn := if d.mn == (mn! "callf") then "call" else if d.mn == (mn! "jmpf") then "jmp" else Mn.str d.mn
   let ops := d.ops.filter fun o => match o with
-    | .imm 8 1 => !(d.ops.length == 2 && ["ror", "rcr", "shl", "shr", "sar"].contains d.mn && false)
+    | .imm 8 1 => !(d.ops.length == 2 && [(mn! "ror"), (mn! "rcr"), (mn! "shl"), (mn! "shr"), (mn! "sar")].contains d.mn && false)
     | _ => true
   mn ++ (if ops.isEmpty then "" else " " ++ (if far then "far " else "") ++
     String.intercalate ", " (ops.map (Opnd.asm st (!hasReg))))
